@@ -40,7 +40,7 @@ def _cell_claims(ctx, ds, dims, e, n, datas, names, extras, xnames):
                 ctx.claim("cell carries the northing of its row", eq(cell.coords[dims[0]].values[()], n[i]))
                 ctx.claim("cell carries the easting of its column", eq(cell.coords[dims[1]].values[()], e[j]))
                 for xn, x in zip(xnames, extras):
-                    ctx.claim("cell carries its extra coordinate", eq(cell.coords[xn].values[()], x[i, j]))
+                    ctx.claim("cell carries its extra coordinate", eq(cell.coords[xn].values[()], x[i, j]) if xn in cell.coords and np.shape(cell.coords[xn].values) == () else False)
     for xn, x in zip(xnames, extras):
         ctx.claim("extra coordinate present with dims (northing, easting)", xn in ds.coords and tuple(ds.coords[xn].dims) == tuple(dims))
 
@@ -160,13 +160,14 @@ def h_conversions(ctx):
     shape = tuple(ctx.cfg["shape"])
     e, n = _axes(ctx, shape)
     x = ctx.reals("x", shape)
-    out = vu.meshgrid_from_1d((e, n, x))
-    ctx.claim("meshgrid_from_1d returns 2-D arrays of shape (n_north, n_east) and keeps extras", And(len(out) == 3, out[0].shape == shape, out[1].shape == shape, out[2] is x))
+    x2 = ctx.reals("xx", shape)
+    out = vu.meshgrid_from_1d((e, n, x, x2))
+    ctx.claim("meshgrid_from_1d returns 2-D arrays of shape (n_north, n_east) and keeps extras", And(len(out) == 4, out[0].shape == shape, out[1].shape == shape, out[2] is x, out[3] is x2))
     for i in range(shape[0]):
         for j in range(shape[1]):
             ctx.claim("meshgrid_from_1d: easting along columns, northing along rows", And(eq(out[0][i, j], e[j]), eq(out[1][i, j], n[i])))
     back = vu.meshgrid_to_1d(out)
-    ctx.claim("meshgrid_to_1d(meshgrid_from_1d(c)) has c's lengths", And(len(back) == 3, len(back[0]) == shape[1], len(back[1]) == shape[0]))
+    ctx.claim("meshgrid_to_1d(meshgrid_from_1d(c)) has c's lengths and keeps the extra coordinates, in order", And(len(back) == 4, np.shape(back[0]) == (shape[1],), np.shape(back[1]) == (shape[0],), back[2] is x, back[3] is x2))
     for j in range(shape[1]):
         ctx.claim("round trip returns the easting vector", eq(back[0][j], e[j]))
     for i in range(shape[0]):
@@ -201,6 +202,10 @@ def h_names(ctx):
         (dict(coordinates=(e, n, x, x), data=d, data_names="alpha", extra_coords_names="up"), True),
         (dict(coordinates=(e, n, x), data=d, data_names="alpha", extra_coords_names="up"), False),
         (dict(coordinates=(e, n), data=None, data_names=None), False),
+        (dict(coordinates=(e, n), data=(d, d), data_names="alpha"), True),
+        (dict(coordinates=(e, n), data=(d, d), data_names=["alpha", "beta", "gamma"]), True),
+        (dict(coordinates=(e, n), data=(d, d), data_names=("alpha", "beta")), False),
+        (dict(coordinates=(e, n, x, x), data=d, data_names="alpha", extra_coords_names=["up", "time"]), False),
     ]
     for kw, should_raise in cases:
         try:
@@ -220,6 +225,8 @@ def _cfg_make(tier, seed):
             {"shape": (1, 3), "nvars": 1, "nextra": 2, "coords2d": False},
             {"shape": (2, 3), "nvars": 2, "nextra": 1, "coords2d": False, "fortran": True},
             {"shape": (3, 1), "nvars": 0, "nextra": 1, "coords2d": False},
+            {"shape": (2, 3), "nvars": 1, "nextra": 2, "coords2d": True, "dims": ("lat", "lon")},
+            {"shape": (1, 3), "nvars": 1, "nextra": 1, "coords2d": True, "dims": ("y", "x")},
         ]
     else:
         for sh in [(1, 1), (1, 3), (3, 1), (2, 3), (3, 2), (3, 3), (4, 3), (2, 5)]:
@@ -238,6 +245,6 @@ HARNESSES = [
     Harness("make_xarray_grid", h_make_grid, _cfg_make, bounds="non-uniform, unordered symbolic axis vectors; shapes up to 3x3 incl. single row/column; 0-4 data variables, 0-3 extra coordinates; 1-D and 2-D coordinates; custom dims"),
     Harness("grid_to_table_inputs", h_table_inputs, _cfg_table, bounds="Dataset with coordinates declared extras-first, named and unnamed DataArray; shapes up to 3x2; custom dims"),
     Harness("meshgrid_check", h_meshgrid_check, lambda tier, seed: [{"shape": s} for s in ([(2, 2)] if tier == "quick" else [(2, 2), (2, 3), (3, 2)])], bounds="fully symbolic 2-D easting/northing arrays (any perturbation of any cell) of shape 2x2 (quick) / up to 3x2"),
-    Harness("conversions", h_conversions, lambda tier, seed: [{"shape": s} for s in ([(2, 3)] if tier == "quick" else [(1, 1), (1, 3), (3, 1), (2, 3), (3, 3)])], bounds="symbolic axis vectors, shapes up to 3x3"),
+    Harness("conversions", h_conversions, lambda tier, seed: [{"shape": s} for s in ([(2, 3), (1, 3), (2, 1)] if tier == "quick" else [(1, 1), (1, 3), (3, 1), (2, 1), (2, 3), (3, 3)])], bounds="symbolic axis vectors with two extra coordinates, shapes up to 3x3 incl. single row / column"),
     Harness("name_counts", h_names, {"quick": [{}]}, bounds="2x2 grid; 0-2 data arrays vs 0-2 names; 0-2 extra coordinates vs 0-2 names"),
 ]
